@@ -250,9 +250,14 @@ func runC03(r *Report, tier string) {
 		nparams := len(fn.Params)
 		sigParam := fmt.Sprint(nparams - 1)
 		msgParam := fmt.Sprint(nparams - 2)
-		for _, x := range fr.exits {
+		_ = fr
+		// helpers that are neither verifier methods nor primitives are seen through
+		for xi, x := range P.deepExits(fn, func(h *ssa.Function) bool { return !inSet[shortFn(h)] }) {
 			r.paths++
 			key := fmt.Sprintf("%s:exit:%s", shortFn(fn), exitID(P, fn, x))
+			if x.pred == nil && len(P.factsOf(fn).exits) != len(P.deepExits(fn, func(h *ssa.Function) bool { return !inSet[shortFn(h)] })) {
+				key += fmt.Sprintf("#%d", xi)
+			}
 			if x.kind == exitFailure {
 				o := r.ob("R03.1", key+":failure-error", fn, x.ret, "failure exit returns ErrVerification or the hash error")
 				et := x.errTerm
